@@ -2328,7 +2328,17 @@ class _Activation:
                     break
         else:
             qt = callee.get('type', {}).get('qualType', '')
-            # "RegisterAccess (*)(RegisterArea *, const RegisterAtom *, ...)"
+            # "RegisterAccess (*)(RegisterArea *, const RegisterAtom *, ...)"; a typedef'd function pointer type is looked up
+            if '(*)(' not in qt:
+                dq = callee.get('type', {}).get('desugaredQualType', '')
+                if '(*)(' in dq:
+                    qt = dq
+                else:
+                    for u in self.e.units:
+                        td = u.typedefs.get(qt.replace('const ', '').strip())
+                        if td and '(*)(' in (td.get('desugaredQualType') or td.get('qualType') or ''):
+                            qt = td.get('desugaredQualType') if '(*)(' in (td.get('desugaredQualType') or '') else td.get('qualType')
+                            break
             if '(*)(' in qt:
                 inside = qt.split('(*)(', 1)[1].rsplit(')', 1)[0]
                 ptypes = [p.strip() for p in split_params(inside)]
